@@ -13,21 +13,35 @@ def parseLevel (s : String) : Option (Nat × Nat × Bool) :=
   | [some red, some size, some _, some c] => some (red * 1024, size * 1024, c == 1)
   | _ => none
 
-def driveChain (isCo : Bool) (chain impl : String) : String × List String :=
-  let panics := chain.endsWith "!"
-  let body := (chain.replace "!" "").replace "." ""
-  let lv := (body.splitOn ">").filterMap parseLevel
-  let toks := words impl
-  let entries := toks.filter (fun t => t.startsWith "d")
-  -- environment: the margin of each call (and, when too close to call, what the implementation did)
-  let levels : List Level := (lv.zip (entries ++ List.replicate (lv.length - entries.length) "")).map (fun (l, e) =>
+def mkLevels (lv : List (Nat × Nat × Bool)) (entries : List String) : List Level :=
+  (lv.zip (entries ++ List.replicate (lv.length - entries.length) "")).map (fun (l, e) =>
     let m := (fieldOf e 'm').getD 2
     let g := (fieldOf e 'g').getD 0
     let rem := if m == 0 then l.1 + 65536 else if m == 1 then 0 else (if g == 1 then 0 else l.1)
     { red := l.1, size := l.2.1, catch_ := l.2.2, remaining := rem })
+
+def driveChain (isCo : Bool) (chain impl : String) : String × List String :=
+  -- `L~D`: D runs in a destructor while L's panic unwinds
+  let (mainS, dropS) := match chain.splitOn "~" with
+    | [a, b] => (a ++ "!", b)
+    | _ => (chain, "")
+  let panics := mainS.endsWith "!"
+  let body := (mainS.replace "!" "").replace "." ""
+  let lv := (body.splitOn ">").filterMap parseLevel
+  let dv := (dropS.splitOn ">").filterMap parseLevel
+  let toks := words impl
+  let entries := toks.filter (fun t => t.startsWith "d")
+  -- environment: the margin of each call (and, when too close to call, what the implementation did)
+  let levels : List Level := mkLevels lv (entries.take lv.length)
   let r := run isCo (fun s => s - 8192) 0 levels panics
+  -- the drop chain starts at the depth of the innermost callback; the growth decision there is the
+  -- same function of the remaining stack (unwinding or not)
+  let innermost := (r.1.getLast?.map (·.inside)).getD 0
+  let dlevels : List Level := mkLevels dv (entries.drop lv.length)
+  let rd := if dv.isEmpty then ([], [], innermost, Out.value 7) else run isCo (fun s => s - 8192) innermost dlevels false
   let ms := entries.map (fun e => (fieldOf e 'm').getD 2)
-  let ents := (r.1.zip (ms ++ List.replicate (r.1.length - ms.length) 2)).map (fun (e, m) =>
+  let allEntries := r.1 ++ rd.1
+  let ents := (allEntries.zip (ms ++ List.replicate (allEntries.length - ms.length) 2)).map (fun (e, m) =>
     s!"d{e.before},m{m},g{if e.grew then 1 else 0},i{e.inside},k{if e.roomOk then 1 else 0}")
   let cs := r.2.1.map (fun d => s!"c{d}")
   let v := match r.2.2.2 with | .value v => toString v | .unwinding => "unwound"
@@ -54,6 +68,7 @@ def drive (body impl : String) : Verdict :=
     { modelOut := joinWith " | " (rs.map (·.1)),
       spec := [("C23", fails.isEmpty, joinWith " ; " fails)],
       labels := [path] ++ (if chains.any (·.endsWith "!") then ["panic"] else ["no-panic"]) ++
+                (if chains.any (fun c => (c.splitOn "~").length == 2) then ["grow-while-unwinding"] else []) ++
                 (if (rs.any fun r => (words r.1).any (fun t => t.startsWith "c")) then ["caught"] else []) ++
                 (if (rs.any fun r => (words r.1).any (fun t => (fieldOf t 'g') == some 1)) then ["grew"] else ["in-place"]) }
   | _ => { modelOut := "BADCASE" }
